@@ -55,8 +55,10 @@ def gen_structure(seed, tier, i):
         return {"triples": structures.matching_triples(n, m), "family": "matching:%d" % n}
     s = rng.stream(NAME, tier, seed, i, "structure")
     mode = s.random()
-    if mode < 0.15:
+    if mode < 0.12:
         return structures.gen_multi_group(s, 2, 3)
+    if mode < 0.27:
+        return structures.gen_many(s, 10, 16)
     return structures.gen_structure(s, max_stems=8, max_len=4, knotted_bias=0.85, template_p=0.3)
 
 
@@ -81,7 +83,7 @@ def tie_indexes(n_optima, cap):
     if n_optima <= cap:
         return list(range(1, n_optima))
     # evenly spread sample that includes the last one
-    idx = sorted({round(k * (n_optima - 1) / (cap - 1)) for k in range(1, cap)})
+    idx = sorted({(k * (n_optima - 1)) // (cap - 1) for k in range(1, cap)})
     return [t for t in idx if t != 0]
 
 
